@@ -82,6 +82,22 @@ def extract(src):
     if port is None:
         raise KeyError("DefaultKafkaPort not found")
 
+    # kafkacodec: do the broker-aware request encoders refuse a repeated (topic, partition)?  (F18 fix)
+    refuses = False
+    kc_tree = src.tree("kafkacodec.py")
+    for n in ast.walk(kc_tree):
+        if isinstance(n, ast.FunctionDef) and n.name == "_group_payloads":
+            raises = [r for r in ast.walk(n) if isinstance(r, ast.Raise) and isinstance(r.exc, ast.Call) and getattr(r.exc.func, "id", None) == "ValueError"]
+            refuses = bool(raises)
+    if refuses:
+        users = 0
+        for n in ast.walk(kc_tree):
+            if isinstance(n, ast.FunctionDef) and n.name in ("encode_produce_request", "encode_fetch_request", "encode_offset_request", "encode_offset_commit_request", "encode_offset_fetch_request"):
+                if any(isinstance(c, ast.Call) and getattr(c.func, "id", None) == "_group_payloads" for c in ast.walk(n)):
+                    users += 1
+        if users != 5:
+            raise KeyError("kafkacodec: _group_payloads is not used by all five broker-aware encoders (%d)" % users)
+
     def ints(l):
         return "[" + ", ".join("(%d)" % x for x in l) + "]"
 
@@ -97,4 +113,5 @@ def extract(src):
         ("clientCoordinatorNotAvailableErrno", errnos["CoordinatorNotAvailable"]),
         ("clientDefaultKafkaPort", port),
         ("clientJoinMinTimeout", float(const_value(join_min))),
+        ("clientEncoderRefusesDuplicates", bool(refuses)),
     ]
